@@ -63,6 +63,9 @@ class ParseHarness:
             for c in cells:
                 if not docs.in_alphabet(c, self.p["alphabet"]):
                     return None
+            # tiny alphabet: let the solver enumerate it now (cheaper than carrying the cells
+            # through CrossHair's Unicode tables; same policy as DESIGN 2.7)
+            cells = [env.realize(c) for c in cells]
         for i, k in enumerate(self.p.get("classes") or []):
             if not docs.in_class(cells[i], k):
                 return None
